@@ -14,7 +14,7 @@ LEVEL = 'exploration'
 RULE = ('(a) every state of the bounded BFS over bisection sequences (depth <= 2 quick / 3 thorough, six small '
         'abstract meshes) x sigma in {1, 1.5, 2}; (b) Hypothesis histories of t/x/tx/uniform operations with '
         'time/space bias in {0.2, 0.5, 0.8} on abstract float grids and all shipped curves (custom initial grids '
-        'included), followed by refine_grading(sigma, K=4). Cases whose graded mesh is predicted (by the sweep on '
+        'included), followed by refine_grading(sigma, K=4) and, in a third of the histories and for every ordered pair of exponents on the small states, a second grading of the same mesh object with another exponent. Cases whose graded mesh is predicted (by the sweep on '
         'the reference model) to exceed the leaf cap are excluded and counted. Oracle: returns without exception, '
         'result refines the previous mesh, every leaf has h_t/K < h_x^sigma < K*h_t, result is a 1-irregular '
         'bisection tiling with consistent bookkeeping and neighbours; (c) meshes built to contain a leaf exactly on the '
@@ -174,18 +174,36 @@ def body(case, rec, cap):
         rec.add('history_failed_before_grading')     # C02's business
         return
     rec.cls('mesh_' + (case['mesh'].get('curve') or 'abstract'))
+    nv = len(rec.violations)
     grade_and_check(live, float(case['sigma']), rec, case, cap)
+    again = case.get('again')
+    if again and len(rec.violations) == nv:
+        # a graded mesh is a reachable mesh: a second grading of the SAME mesh object with another exponent (after
+        # further bisections, or directly) must put every leaf into the window of that exponent
+        try:
+            live.reseed_model()
+            for op in again[1]:
+                apply_op(live, op, cap=cap // 2)
+        except Exception as ex:
+            if meshdrive.exc_site(ex) == 'harness':
+                raise
+            rec.add('history_failed_before_grading')
+            return
+        rec.cls('second_grading_of_one_mesh')
+        grade_and_check(live, float(again[0]), rec, case, cap)
     if len(rec.samples) < 6 and case['kind'] == 'history' and len(case['ops']) >= 3:
         rec.sample(case)
 
 
 def cases(max_ops):
-    def build(spec, bias, sigma, data_ops):
-        return {'kind': 'history', 'mesh': spec, 'ops': data_ops, 'sigma': sigma, 'bias': bias}
+    def build(spec, bias, sigma, data_ops, again):
+        return {'kind': 'history', 'mesh': spec, 'ops': data_ops, 'sigma': sigma, 'bias': bias, 'again': again}
+    sig = st.one_of(st.sampled_from([1.0, 1.5, 2.0, 1.0, 2.0]), st.floats(1.0, 2.0).map(lambda v: round(v, 3)))
+    again = st.one_of(st.none(), st.none(),
+                      st.tuples(sig, gens.histories(max_ops=4, allow=('t', 'x', 'tx'))).map(list))
     return st.sampled_from([0.2, 0.5, 0.8]).flatmap(
-        lambda bias: st.builds(build, gens.mesh_specs(), st.just(bias),
-                               st.one_of(st.sampled_from([1.0, 1.5, 2.0, 1.0, 2.0]), st.floats(1.0, 2.0).map(lambda v: round(v, 3))),
-                               gens.histories(max_ops=max_ops, allow=('t', 'x', 'tx', 'unif'), time_bias=bias)))
+        lambda bias: st.builds(build, gens.mesh_specs(), st.just(bias), sig,
+                               gens.histories(max_ops=max_ops, allow=('t', 'x', 'tx', 'unif'), time_bias=bias), again))
 
 
 def run(ctx):
@@ -205,9 +223,12 @@ def run(ctx):
                         for ax in (0, 1):
                             nxt.append(seq + [[i, ax]])
             frontier = nxt
-    jobs = [(mno, seq, s) for mno, seq in seqs for s in (1.0, 1.5, 2.0)]
-    for mno, seq, s in ctx.mine(jobs):
-        body({'kind': 'bfs', 'mesh': meshdrive.BFS_MESHES[mno], 'seq': seq, 'sigma': s}, ctx.rec, cap)
+    jobs = [(mno, seq, s, None) for mno, seq in seqs for s in (1.0, 1.5, 2.0)]
+    # two gradings of one mesh object with different exponents (every ordered pair), on the states of depth <= 1
+    jobs += [(mno, seq, s, [s2, []]) for mno, seq in seqs if len(seq) <= 1
+             for s in (1.0, 1.5, 2.0) for s2 in (1.0, 1.5, 2.0) if s2 != s]
+    for mno, seq, s, again in ctx.mine(jobs):
+        body({'kind': 'bfs', 'mesh': meshdrive.BFS_MESHES[mno], 'seq': seq, 'sigma': s, 'again': again}, ctx.rec, cap)
     for case in ctx.mine(boundary_cases()):
         body(case, ctx.rec, cap)
     for case in ctx.mine(staircase_cases()):
